@@ -99,8 +99,10 @@ func racePhase(prop, tier string, base uint64, cfg tierCfg, workers int, tmp str
 			agg.raceOf[v] = rep2
 			confirmed++
 		} else {
-			fmt.Println("HARNESS-ERROR: a race report did not reproduce when the world was run alone:\n" + firstLines(h.report, 30))
-			return 2
+			// never a VIOLATION without a reproducible witness; the driver turns
+			// this into exit 2 unless another violation stands on its own
+			fmt.Println("note: a race report did not reproduce when its world was run alone (6 attempts):\n" + firstLines(h.report, 30))
+			agg.unconfirmed++
 		}
 	}
 	agg.Extra["race_phase"] = map[string]interface{}{
@@ -143,15 +145,20 @@ func raceReportOf(out string) string {
 	return strings.Join(keep, "\n")
 }
 
-// raceReproduces runs one world alone in the race binary.
+// raceReproduces runs one world alone in the race binary. The schedule is
+// deterministic, but the detector itself is not entirely: its shadow memory
+// keeps four accesses per word and evicts at random, so an existing race is
+// occasionally not reported. A few attempts are made; one report suffices.
 func raceReproduces(bin, prop string, w *World, path string) (string, bool) {
 	b, _ := json.Marshal(map[string]interface{}{"property": prop, "kind": "data-race", "world": w})
 	os.WriteFile(path, b, 0o644)
 	spec := WorkerSpec{Prop: prop, Count: 1, Stride: 1, Replay: path, Out: path + ".out"}
-	sets := [4]map[uint64]struct{}{{}, {}, {}, {}}
-	_, out, err := spawn(bin, spec, 4, []string{"GORACE=halt_on_error=1 exitcode=66"}, sets, nil)
-	if err == errRace {
-		return raceReportOf(out), true
+	for attempt := 0; attempt < 6; attempt++ {
+		sets := [4]map[uint64]struct{}{{}, {}, {}, {}}
+		_, out, err := spawn(bin, spec, 4, []string{"GORACE=halt_on_error=1 exitcode=66"}, sets, nil)
+		if err == errRace {
+			return raceReportOf(out), true
+		}
 	}
 	return "", false
 }
